@@ -27,10 +27,10 @@ func run(e *harness.Env) {
 	if e.Thorough() {
 		maxK, bound = 4, 3
 	}
-	e.Rule = "grid grammar: full product of K columns (1..2 quick, 1..4 thorough) x R rows (1..4) x W words per line (1..3) x API, and on top of each grid every " +
+	e.Rule = "grid grammar: full product of K columns (1..2 quick, 1..4 thorough) x R rows (1,2,3,4,8) x W words per line (1..3) x API, and on top of each grid every " +
 		"combination of at most 2 (quick) / 3 (thorough) deviations among: justified, heading (first/last column), short last line, single-word line, overhanging word (near/far), " +
 		"spanning title (top/mid), list markers (bullet/numbered/nested), RTL run, character-level fragmentation, exact duplicate overlay (all/line), inverted Y, coordinates x0.1, " +
-		"single narrow glyph line (I/1), repeated text at a different position (word / doubled letter), descending map order (APIs with paragraph detection), one absent cell per deviation. distinct = distinct (API, grid, deviation vector); non-trivial = at least one deviation"
+		"single narrow glyph line (I/1), repeated text at a different position (word / doubled letter), hyphenated line end, descending map order (APIs with paragraph detection), one absent cell per deviation. distinct = distinct (API, grid, deviation vector); non-trivial = at least one deviation"
 	e.Assumptions = []string{
 		"Part 2 trusts tabula's PDF parsing and text positioning (C01/C08) to deliver the fragments: the reference is the list of fragments written into the PDF, their widths/heights are taken from tabula.Open(f).Fragments()",
 		"text.DetectDirection is used to label the direction of Part-1 input fragments exactly as text extraction would",
@@ -38,7 +38,7 @@ func run(e *harness.Env) {
 		"loss classes use pinned thresholds (5pt line, 50pt column, 10x5pt block), not tabula's configuration at run time",
 	}
 	e.Note("map_order_seam", "range-over-map sites of tabula/layout iterated in sorted order by the build overlay: "+mapOrderSites+"; both ascending and descending order are explored for APIs that run paragraph/heading detection")
-	e.Note("bound", fmt.Sprintf("K<=%d, R<=4, W<=3, deviations<=%d, %d APIs", maxK, bound, len(apis)))
+	e.Note("bound", fmt.Sprintf("K<=%d, R in {1,2,3,4,8}, W<=3, deviations<=%d, %d APIs", maxK, bound, len(apis)))
 
 	only := os.Getenv("C09_API") // debugging aid: restrict to one API
 	for _, a := range apis {
@@ -46,7 +46,7 @@ func run(e *harness.Env) {
 			continue
 		}
 		for K := 1; K <= maxK; K++ {
-			for R := 1; R <= 4; R++ {
+			for _, R := range []int{1, 2, 3, 4, 8} {
 				for W := 1; W <= 3; W++ {
 					a, K, R, W := a, K, R, W
 					space := harness.D("part", a.part, "api", a.name, "K", K, "R", R, "W", W)
@@ -82,6 +82,7 @@ func evaluate(e *harness.Env, c *harness.Ctx, a api, p *pageSpec) {
 	sig, det := harness.Guard(func() {
 		if a.part == 1 {
 			v = a.run1(specFragments(p))
+			v.input = specFragments(p)
 			dumpAnalysis(specFragments(p))
 			return
 		}
@@ -98,6 +99,7 @@ func evaluate(e *harness.Env, c *harness.Ctx, a api, p *pageSpec) {
 		}
 		adoptGeometry(items, fr)
 		v = a.run2(path)
+		v.input = fr
 	})
 	if sig != "" {
 		c.Fail(sig, det, files)
